@@ -56,6 +56,11 @@ type World struct {
 	ginParams  map[string]*Term
 	ignoreGo   bool
 	ginBound   []ginBound
+	nsplit     int
+	httpErrors []*Term
+	reqDone    *ChanObj
+	jwtOutcome string
+	durMs      map[int]*Term
 	tablesDropped, dbClosed int
 	removed    []*Term
 	httpBuilt  *httpSent
